@@ -2,12 +2,13 @@
 # Run once after a fresh restore (offline): regenerate translated definitions from /repo and
 # build every Lean module the claimed checks need (property modules + what their drivers import).
 set -e
-cd /verif
+V="$(cd "$(dirname "$0")/.." && pwd)"
+cd "$V"
 export PYTHONDONTWRITEBYTECODE=1
 /venv/bin/python harness/translate.py > /dev/null
 TARGETS=$(/venv/bin/python harness/targets.py)
 cd lean
-mkdir -p /verif/.locks
-flock /verif/.locks/lake.lock lake build $TARGETS
+mkdir -p "$V/.locks"
+flock "$V/.locks/lake.lock" lake build $TARGETS
 printf 'begin 2 none\npush f;s;8 F\nread 1\n' | lake env lean --run drivers/C01.lean > /dev/null
 echo "setup ok"
